@@ -197,3 +197,16 @@ Proof. reflexivity. Qed.
 Example C02_ex_refuse_terminator : forall H,
   validate H (mkSdj [] [] [] [mkBlob 0 16 [] (Some [])] []) = Err ENoTerminator.
 Proof. reflexivity. Qed.
+
+(* a complete instance with toy primitives that satisfy the three hypotheses (H0 a positional checksum repeated 48
+   times, E0/D0 PKCS7-style padding only): name "a/b.t\x01xt", 7-byte file, maxb = 4 *)
+Example C02_ex_three_blobs : map b_len (d_blobs (s_desc ex_stream)) = [16; 16; 16; 0]%Z.
+Proof. vm_compute. reflexivity. Qed.
+Example C02_ex_roundtrip : decrypt_stream D0 (s_desc ex_stream) (s_cts ex_stream) = Some ex_file.
+Proof. vm_compute. reflexivity. Qed.
+Example C02_ex_accepts : validate H0 (to_sdj (s_desc ex_stream)) = Ok (s_desc ex_stream).
+Proof. vm_compute. reflexivity. Qed.
+Example C02_ex_refuses_tampered_key : validate H0 (tamper_key (to_sdj (s_desc ex_stream))) = Err EStreamHash.
+Proof. vm_compute. reflexivity. Qed.
+Example C02_ex_suggested_name : d_sugg (s_desc ex_stream) = bytes_of_Ns [97; 98; 46; 116; 120; 116]%N.
+Proof. vm_compute. reflexivity. Qed.
